@@ -28,6 +28,7 @@ type c02SrcCase struct {
 	Body  string `json:"body"`
 	Item  string `json:"item"`
 	Sep   string `json:"sep"`
+	Suf   string `json:"suf"`
 	Num   bool   `json:"num"`
 	D     int    `json:"d"`
 	Len   int    `json:"len"`   // declared length (nest, indent, text), 0 = only the 64 KiB bound
@@ -107,6 +108,7 @@ func c02RenderSrc(c *c02SrcCase) (string, error) {
 			if c.Num {
 				b.WriteString(strconv.Itoa(i))
 			}
+			b.WriteString(c.Suf)
 		}
 		b.WriteString(c.Tail)
 		return b.String(), nil
